@@ -298,6 +298,8 @@ func runC11(o *opts) error {
 	qgen.allM(o, r)
 	// in-lists of every length and order (Q and M cases)
 	qgen.allL(o, r)
+	// values whose text has a reading in another notation: numbers, bools, dates, percent / entity / escape encodings (Q and M cases)
+	qgen.allN(o, r)
 	writeJSON(o.out, "stats.json", stats)
 	return nil
 }
